@@ -14,6 +14,8 @@ mod peer;
 mod props;
 mod refmodel;
 mod rng;
+mod svec;
+mod tape;
 mod worker;
 
 use std::path::PathBuf;
@@ -51,8 +53,10 @@ fn prop_cfg(prop: &str) -> Option<PropCfg> {
         "C06" => PropCfg { level: "exploration", quick_count: 5_000, thorough_count: 120_000, both_profiles: false, rule: "as the equivalence checks, but every heap block made during execution sits flush against a PROT_NONE page (side by coin), with poison, canaries, optional same-address reuse and random legal pre-growth; non-trivial iff canonical run has >=1 loop iteration and >=1 I/O event" },
         "C07" => PropCfg { level: "exploration", quick_count: 3_000, thorough_count: 80_000, both_profiles: true, rule: "one run = one scenario x all four backends x a ladder of ~35 budgets (0..3, two random <33, geometric to 2^20, neighbourhood of the canonical back-edge count, 2^62 and 2^63-1 for halting programs); non-trivial iff canonical run has >=1 loop iteration and >=1 I/O event" },
         "C08" => PropCfg { level: "fault_enumeration", quick_count: 1_500, thorough_count: 40_000, both_profiles: false, rule: "one run = one scenario with a halting (or printing-divergent) canonical history; every single-fault plan is enumerated when the history has <=256 events (each input request failing, each output refused as Ok(0) and as Err, no reader, no writer), sampled otherwise, on all backends x 2 levels; non-trivial iff canonical run has >=1 loop iteration and >=1 I/O event" },
+        "C09" => PropCfg { level: "exploration", quick_count: 40_000, thorough_count: 1_500_000, both_profiles: false, rule: "one run = 8 generated histories of 1-60 calls on runtime::Memory (mov, read, write, make_accessible incl. two-sided, empty and reversed ranges, check, set_current_ptr/current_ptr, check_ptr) at a random width, offsets aimed near 0, at the live allocation edges +-2 (found by probing with check) and far (+-1e6), 7 of 8 under the guard allocator; a history is non-trivial iff the tape grew at least once and a non-zero value was read back after a growth" },
         "C10" => PropCfg { level: "exploration", quick_count: 6_000, thorough_count: 150_000, both_profiles: false, rule: "one run = one halting scenario executed with execute_unsafe on bcint and basejit at levels 0..3 inside a region pre-grown to excursion+program length+1 on each side and rounded to whole pages so that PROT_NONE pages touch both ends; non-trivial iff canonical run has >=1 loop iteration and >=1 I/O event" },
         "C17" => PropCfg { level: "fault_enumeration", quick_count: 3_000, thorough_count: 80_000, both_profiles: false, rule: "one run = one halting roaming scenario x 4 backends; the fault-free run under the guard allocator counts the in-zone allocation requests N (tape growths, bcint context, threaded-code and other Vecs) and then request k is made to return null for every k in 1..=N (24 sampled if N>24), each in a forked child; non-trivial iff the failure fired" },
+        "C18" => PropCfg { level: "exploration", quick_count: 30_000, thorough_count: 1_000_000, both_profiles: false, rule: "one run = 16 generated histories of 1-40 operations (constructors, push, extend, clear, retain, retain_mut with mutation, dedup, sort, clone, ==, cmp, hash, index, iter, iter_mut, by-value iteration abandoned after j items, drop) over up to 3 vectors with inline capacity 1 or 2, element type u32 or a drop-tracked type; slice view compared with a Vec model after every operation, drop ledger at the end; non-trivial iff some vector crossed the inline/heap boundary and at least one removing operation ran" },
         _ => return None,
     })
 }
